@@ -13,9 +13,9 @@ package main
 // dup and mixed also run in the -race build (registry map under contention).
 
 import (
-	"math/rand"
 	"context"
 	"fmt"
+	"math/rand"
 	"sync"
 	"sync/atomic"
 	"time"
@@ -695,7 +695,6 @@ func c10WhileStopping(c *caseCtx) (res caseResult) {
 	e.Poison(pid)
 	return res
 }
-
 
 // c10ID: ids are free-form strings chosen by the application; most runs use a plain word, some use
 // ids with path, URL or whitespace syntax in them - they name an actor like any other.
